@@ -221,24 +221,7 @@ def _l0_contigs_with_reads(n: int, m0: int, u0: int, m1: int, u1: int, m2: int, 
     pre: 0 <= su <= 2
     post: _
     """
-    # the real get_contigs_with_reads over the text `samtools idxstats` prints (contig, length, #mapped, #unmapped-but-placed; last line '*'):
-    # every contig that holds ANY record - also one with only unmapped, placed records - must be listed, in file order
-    import types
-    import singlecellmultiomics.bamProcessing.bamFunctions as BFm
-    C = [0, 1, 7]
-    rows = [('chrA', 5000, pick(C, m0), pick(C, u0)), ('chrB', 200000, pick(C, m1), pick(C, u1)), ('chrC', 31, pick(C, m2), pick(C, u2))][:n]
-    star_unmapped = pick(C, su)
-    text = ''.join('%s\t%d\t%d\t%d\n' % r for r in rows) + '*\t0\t0\t%d\n' % star_unmapped
-    real = BFm.pysam
-    BFm.pysam = types.SimpleNamespace(idxstats=lambda path: text)
-    try:
-        got = list(BFm.get_contigs_with_reads('in.bam', with_length))
-    finally:
-        BFm.pysam = real
-    want = [((r[0], r[1]) if with_length else r[0]) for r in rows if r[2] > 0 or r[3] > 0]
-    if star_unmapped > 0:
-        want.append(('*', 0) if with_length else '*')
-    return got == want
+    return S.check_contigs_with_reads(n, [m0, m1, m2], [u0, u1, u2], su, with_length) is None
 
 
 LEMMAS = [
